@@ -87,7 +87,21 @@ def run(shard, ctx):
     import pyscsi.pyscsi.scsi_enum_command as E
 
     held = []  # results of earlier decodes the caller still holds: (result object, its printed form when it was returned)
+    from vmon.spec import cdb as S, dataout as DO
+
+    builders = [c for c in S.COMMANDS.values() if c.custom]
+    it = 0
     for mode in modes(f, shard):
+        it += 1
+        if it % 9 == 1:
+            # the application also *sends* parameter lists between two responses (MODE SELECT after MODE SENSE, PERSISTENT RESERVE
+            # OUT, EXTENDED COPY): building them does not change how the next response is decoded
+            for c in builders:
+                try:
+                    harness.construct(c, c.sets[0], DO.GEN[c.custom](rng)[0])
+                    ctx.count("parameter_lists_built_in_between")
+                except Exception:  # noqa: BLE001
+                    pass
         v = f.gen(rng, mode)
         b = f.encode(v)
         nontriv = gen.nonzero(D.strip_private(f.expect(v))) and (f.name not in LIST_FORMATS or has_descriptor(v) or has_descriptor(f.expect(v)))
